@@ -165,3 +165,7 @@ def run(chk, replay):
     # the command line layer (spec/Cli.tla): mandoline's options, also typed with the value zero
     from harness import cli
     cli.phase(chk, "mandoline")
+    # hierarchies whose levels refine by 4, or by different ratios from one jump to the next (Refine.tla): a level's cells are
+    # Fac(l) = the PRODUCT of the ratios below it per level-0 cell
+    from harness import refine
+    refine.phase(chk, "plate")
